@@ -288,7 +288,7 @@ def race_part(prop, tier, seed, wd, findings, only_report=False):
             log(f"VIOLATION-DETAIL data race ({phase}) between {key}")
             print(f"VIOLATION property={prop} replay={path}")
             nviol += 1
-        for x in panics:
+        for x in sorted({re.sub(r"goroutine=\d+", "goroutine=N", y) for y in panics}):
             path = write_replay(prop, "race_panic_" + phase, {"property": prop, "kind": "race", "phase": phase, "sites": x, "report": out[-4000:]})
             log(f"VIOLATION-DETAIL {x}")
             print(f"VIOLATION property={prop} replay={path}")
